@@ -118,7 +118,7 @@ func (u *memoryManagementUnit) fetchCacheLine(addr int32) []int8 {
 }
 
 func (u *memoryManagementUnit) pushLineToL3(addr comp.AlignedAddress, line []int8) {
-	evicted := u.l3.PushLine(addr, line)
+	evicted := u.l3.PushLineWithEvictionWarning(addr, line)
 	for i, pending := range u.pendings {
 		if pending[0] == int32(addr) {
 			if len(u.pendings) == 0 {
@@ -129,10 +129,12 @@ func (u *memoryManagementUnit) pushLineToL3(addr comp.AlignedAddress, line []int
 			break
 		}
 	}
-	if len(evicted) == 0 {
+	if evicted == nil {
 		return
 	}
-	u.writeToMemory(int32(addr), line)
+	// The displaced line is removed and written back to memory
+	u.l3.EvictCacheLine(evicted.Boundary[0])
+	u.writeToMemory(int32(evicted.Boundary[0]), evicted.Data)
 }
 
 func (u *memoryManagementUnit) writeToL3(addr int32, data []int8) {
